@@ -20,16 +20,17 @@ Fixpoint of_list_from (l : list Z) (i : N) (m : PM.t Z) : PM.t Z :=
   match l with [] => m | x :: tl => of_list_from tl (N.succ i) (PM.add (akey i) x m) end.
 Definition of_list (l : list Z) : arr := {| alen := N.of_nat (length l); adata := of_list_from l 0%N (PM.empty Z) |}.
 
-(* to_list, tail-recursive from the end *)
-Fixpoint to_list_aux (a : arr) (n : nat) (acc : list Z) : list Z :=
-  match n with O => acc | S k => to_list_aux a k (araw a (N.of_nat k) :: acc) end.
-Definition to_list (a : arr) : list Z := to_list_aux a (N.to_nat (alen a)) [].
+(* to_list, tail-recursive from the end; the index is carried as an N next to the structural nat (N.of_nat k at every
+   step would make the walk quadratic) *)
+Fixpoint to_list_aux (a : arr) (n : nat) (i : N) (acc : list Z) : list Z :=
+  match n with O => acc | S k => let j := N.pred i in to_list_aux a k j (araw a j :: acc) end.
+Definition to_list (a : arr) : list Z := to_list_aux a (N.to_nat (alen a)) (alen a) [].
 
 (* slice [start, start+len) as a list; None when out of range *)
-Fixpoint slice_aux (a : arr) (start : N) (n : nat) (acc : list Z) : list Z :=
-  match n with O => acc | S k => slice_aux a start k (araw a (start + N.of_nat k)%N :: acc) end.
+Fixpoint slice_aux (a : arr) (n : nat) (i : N) (acc : list Z) : list Z :=
+  match n with O => acc | S k => let j := N.pred i in slice_aux a k j (araw a j :: acc) end.
 Definition aslice (a : arr) (start len : N) : option (list Z) :=
-  if (start + len <=? alen a)%N then Some (slice_aux a start (N.to_nat len) []) else None.
+  if (start + len <=? alen a)%N then Some (slice_aux a (N.to_nat len) (start + len)%N []) else None.
 
 (* write a list at an offset; None when out of range *)
 Fixpoint write_aux (m : PM.t Z) (i : N) (l : list Z) : PM.t Z :=
